@@ -38,12 +38,15 @@ def plan(tier):
         return [
             ("weighted-3", True, 3, 6, 6, 4, (0.25,)),
             ("weighted-3-int", True, 3, None, 4, 3, (1,)),
+            # rates of very small / very large magnitude (power-of-two units keep the float arithmetic exact)
+            ("weighted-3-tiny", True, 3, None, 4, 3, (2.0 ** -47, 2.0 ** 40)),
             ("weighted-4", True, 4, 4, 5, 3, (0.25,)),
             ("unweighted-4", False, 4, 6, 6, 5, (1,)),
         ]
     return [
         ("weighted-3", True, 3, 7, 7, 5, (0.25,)),
         ("weighted-3-int", True, 3, None, 6, 4, (1,)),
+        ("weighted-3-tiny", True, 3, None, 6, 4, (2.0 ** -47, 2.0 ** 40)),
         ("weighted-4", True, 4, 6, 6, 4, (0.25,)),
         ("unweighted-4", False, 4, 8, 8, 6, (1,)),
         ("unweighted-5", False, 5, 6, 6, 5, (1,)),
